@@ -43,7 +43,7 @@ def shards(tier: str, seed: int) -> list[dict[str, Any]]:
 def required_reach(tier: str) -> dict[str, int]:
     return {"replies": 10000, "contract.session-invariant": 10000, "client.accepted.raw": 10000, "client.accepted.typed": 10000,
             "positive-replies": 500, "suppressed": 50, "non-default-session": 500, "loop.connections": 4, "loop.replies": 500,
-            "long-requests": 10}
+            "long-requests": 10, "inactivity-pause": 20}
 
 
 class Mon:
@@ -117,7 +117,18 @@ async def direct(ctx: Any, mon: Mon, params: dict[str, Any]) -> None:
         hist: list[bytes] = []
         last_seed: tuple[int, bytes] | None = None
         for _ in range(params["length"]):
+            if rng.random() < 0.01:
+                # the tester falls silent: more than 10 s of inactivity reset the ECU state (the server's clock is virtual here)
+                gap = rng.choice([3.0, 30.0, 30.0, 600.0])
+                vecu.CLOCK.advance(gap)
+                if gap > 10:
+                    m.reset()
+                    last_seed = None
+                    ctx.reach("inactivity-pause")
+                    hist.append(b"\x00PAUSE")
             q = vecu.gen_request(rng, m, last_seed)
+            if last_seed is None and hist and hist[-1] == b"\x00PAUSE" and rng.random() < 0.5:
+                q = bytes([0x27, rng.choice([2, 4, 0x12])]) + rng.randbytes(2)  # a key right after the pause
             hist.append(q)
             if len(q) > 255:
                 ctx.reach("long-requests")
@@ -231,6 +242,9 @@ def replay(ctx: Any, witness: dict[str, Any]) -> None:
         hist: list[bytes] = []
         for h in witness.get("history", []):
             q = ux(h)
+            if q == b"\x00PAUSE":
+                vecu.CLOCK.advance(30.0)
+                continue
             hist.append(q)
             try:
                 reply, _ = await d.transport.handle_request(q)
